@@ -103,7 +103,8 @@ def run(prop_id, tier, seed, report):
                         stats["outcomes"].get(rres.split(" ")[0] + " " + (rres.split(" ")[1] if rres.startswith("err") else ""), 0) + 1
                     stats["distinct"].add((sc.name, kind, "/".join(path.split("/")[:2]), persistent, rres.split(" ")[0]))
                     problems = {}
-                    now_abs = abs_of(trio)
+                    tree_after = abstraction.read_tree(trio.real.root)
+                    now_abs = abstraction.abs_lines(tree_after, trio.known, trio.contents)
                     if prop_id == "C08" or True:
                         if rlocks != EMPTY_LOCKS:
                             problems["identifier left locked"] = (EMPTY_LOCKS, rlocks)
@@ -136,6 +137,12 @@ def run(prop_id, tier, seed, report):
                                 problems["failed call left the pid bound"] = (b_before, b_after)
                             if spec_result.startswith("ok") and retry is not None and not retry.startswith("ok"):
                                 problems["pid cannot be stored again at once"] = (spec_result[:40], retry)
+                            if not b_after:
+                                # unbound after the failure: then no reference list may still name it (half-bound)
+                                listed = [c for c, text in tree_after["cidrefs"].items()
+                                          if not c.endswith("_delete") and pid in text.split("\n")]
+                                if listed:
+                                    problems["failed call left the pid unbound but still listed by a cid"] = (b_before, listed)
                         if rres.startswith("err") and sc.call.name == "store_metadata" and pid is not None:
                             m_before = [l for l in pre_abs if l.startswith("M %s " % pe)]
                             m_after = [l for l in no_residue(now_abs) if l.startswith("M %s " % pe)]
